@@ -74,4 +74,11 @@ ASSUME Report == PrintT(<<"MC_PATTERN", Cardinality(Vals), Cardinality(GoodSpecs
 
 VARIABLE dummy
 Spec == dummy = 0 /\ [][UNCHANGED dummy]_dummy
-=============================================================================
+=========================================================================
+\* %{func} on concrete signatures
+ASSUME Func1 == CleanFunc(<<118, 111, 105, 100, 32, 77, 121, 67, 108, 97, 115, 115, 58, 58, 109, 121, 77, 101, 116, 104, 111, 100, 40, 105, 110, 116, 44, 32, 81, 83, 116, 114, 105, 110, 103, 41>>) = <<77, 121, 67, 108, 97, 115, 115, 58, 58, 109, 121, 77, 101, 116, 104, 111, 100>>
+ASSUME Func2 == CleanFunc(<<105, 110, 116, 32, 109, 97, 105, 110, 40, 105, 110, 116, 44, 32, 99, 104, 97, 114, 42, 42, 41>>) = <<109, 97, 105, 110>>
+ASSUME Func3 == CleanFunc(<<102>>) = <<102>> /\ CleanFunc(<<>>) = <<>>
+ASSUME Func4 == CleanFunc(<<118, 105, 114, 116, 117, 97, 108, 32, 118, 111, 105, 100, 32, 65, 58, 58, 66, 58, 58, 114, 117, 110, 40, 41, 32, 99, 111, 110, 115, 116>>) = <<65, 58, 58, 66, 58, 58, 114, 117, 110>>
+ASSUME Func5 == CleanFunc(<<70, 111, 111, 58, 58, 126, 70, 111, 111, 40, 41>>) = <<70, 111, 111, 58, 58, 126, 70, 111, 111>>
+====
